@@ -28,7 +28,7 @@ Definition toy_rt (lit_eq : bool) : runtime :=
      leaf_m := toy_leaf_m lit_eq;
      none_u := fun _ => Raise EValue;
      load_scalar := fun x => Ok x;
-     values_scalar := fun _ => Raise EType;
+     values_scalar := fun _ => Raise EType; unpack_scalar := fun _ => Raise EType;
      items_scalar := fun _ => Raise EType;
      pairlike_scalar := fun _ => false;
      index := fun _ => PAtom 1;
